@@ -50,5 +50,9 @@ for nm, ev, fld, val in (("crypto_hash", "hash", "digest", "00" * 32), ("crypto_
 # ipc_sync between two forked processes (extra X01)
 iexe = vlib.build(c.dir, "drv_ipc", [os.path.join(vlib.HARNESS, "drv_ipc.c")] + vlib.repo_srcs("util/ipc_sync.c", "util/noeintr.c", "util/warnp.c"))
 record("ipc", iexe, "prog ipc\nA wait\nB signal\nA done\nB done\nend\n", "proc", "IpcSyncTrace", "IpcSyncTrace.cfg", ["set", "ret", "rc", -1])
+# the diagnostics channel (extra X02)
+wexe = vlib.build(c.dir, "drv_warnp", [os.path.join(vlib.HARNESS, f) for f in ("drv_warnp.c", "allocwrap.c")] + vlib.repo_srcs("util/warnp.c"),
+                  wraps=["malloc", "calloc", "realloc", "free", "strdup", "syslog", "__syslog_chk", "vsyslog", "closelog"])
+record("warnp", wexe, "prog w\nname 2f782f79\nsyslog 1\nwarn 2 1 6d 0\nsyslog 0\nwarnp 0 3 70 5\nend\n", "util", "WarnpTrace", "WarnpTrace.cfg", ["set", "msg", "errno_after", 5])
 with open(os.path.join(OUT, "index.json"), "w") as f:
     json.dump(index, f, indent=1, sort_keys=True)
